@@ -967,6 +967,39 @@ static void flat_wss(uint64_t chunk, void *arg)
         }
         mc_distinct(0x4000000 + chunk);
 }
+/* every single-bit deviation of a confirmed WSS word: base x 4 (announced iff parity ok), one reception of
+ * base ^ (1 << bit), base x 4 again.  pal_feed() audits every reception against the reference (no ASPECT before the
+ * fourth identical reception, values as transmitted); on top: the single deviating reception and the base word
+ * coming back raise nothing ("a single deviating reception between identical ones ... raises no event",
+ * "not announced again while the same value keeps arriving").  All 16 bits x every base word with valid parity
+ * in chunk (the parity bit itself included: the deviating word is then invalid). */
+static void flat_wss_dev(uint64_t chunk, void *arg)
+{
+        for (unsigned base = chunk * 64; base < (chunk + 1) * 64; base++) {
+                vbi_aspect_ratio a; int an;
+                if (base == 0 || !ref_wss(base, &a, &an)) continue;
+                for (int bit = 0; bit < 14; bit++) {
+                        unsigned dev = base ^ (1u << bit);
+                        char d[120]; snprintf(d, sizeof d, "WSS word %04x four times, %04x (bit %d flipped) once, %04x four times", base, dev, bit, base);
+                        mc_case("WSS single deviation sweep", "%s", d);
+                        memset(&R, 0, sizeof R); ctx_hist = NULL; ctx_desc = d;
+                        dec_new();
+                        struct rx rb = { K_WSS, .wss = base, .name = d }, rd = { K_WSS, .wss = dev, .name = d };
+                        int viol = 0;
+                        for (int k = 0; k < 9 && !viol; k++) {
+                                viol = pal_feed(k == 4 ? &rd : &rb);
+                                if (viol) break;
+                                int want = (k == 3);
+                                if (nlog != want)
+                                        viol = bad(k < 4 ? "WSS word repeated three times with valid parity not announced"
+                                                   : k == 4 ? "ASPECT event for a single deviating WSS reception between identical ones"
+                                                   : "ASPECT announced again while the same value keeps arriving", "%s, reception %d", d, k + 1);
+                        }
+                        mc_count("evaluations", 1);
+                }
+        }
+        mc_distinct(0x4800000 + chunk);
+}
 /* all PILs: programme id events on one decoder.  8/30-2 announces every reception; VPS announces with the CNI
  * confirmation, so the CNI alternates between two stations and every label is sent twice. */
 static int pil_stride;
@@ -1054,7 +1087,7 @@ int main(int argc, char **argv)
         char bound[500]; size_t o = 0;
         for (unsigned i = 0; i < sizeof CFGS / sizeof *CFGS; i++)
                 o += snprintf(bound + o, sizeof bound - o, "%s%s: %d letters, depth <= %d", i ? "; " : "", CFGS[i].name, CFGS[i].nl, CFGS[i].depth[tier]);
-        mc_meta("bound", "%s; sweeps: 4095 VPS CNI, 65536 8/30-1 CNI, 65535 8/30-2 CNI, 65535 WSS words, 2^20/%d PIL", bound, pil_stride);
+        mc_meta("bound", "%s; sweeps: 4095 VPS CNI, 65536 8/30-1 CNI, 65535 8/30-2 CNI, 65535 WSS words, every single-bit deviation (14 bits) of every valid 14 bit WSS word between repeats, 2^20/%d PIL", bound, pil_stride);
 
         if (!mc_replaying) self_check();
         for (unsigned i = 0; i < sizeof CFGS / sizeof *CFGS; i++) {
@@ -1068,6 +1101,7 @@ int main(int argc, char **argv)
         mc_pool("sweep-8301-cni", 256, flat_8301, NULL, 30);
         mc_pool("sweep-8302-cni", 256, flat_8302, NULL, 30);
         mc_pool("sweep-wss", 256, flat_wss, NULL, 30);
+        mc_pool("sweep-wss-deviation", 16384 / 64, flat_wss_dev, NULL, 60);
         mc_pool("sweep-pil", 1024, flat_pil, NULL, 60);
         return mc_finish();
 }
